@@ -30,7 +30,11 @@ def afterReset (f : TeardownFacts) (p : CrashPoint) : Ledger :=
                        | .no => false
                        | .pending => true                               -- created after the disconnect: nobody is left to close it
                        | .yes => !(f.resetDisconnectsSpa && f.disconnectClosesTransport)),
-      tasksAlive := p.tasksSpawned && !(f.resetDisconnectsSpa && f.disconnectCancelsSpaTasks),
+      -- tasks already spawned are cancelled by disconnect(); tasks spawned AFTER the reset die at their first step when the
+      -- protocol had been dropped under them, but when the reset lands inside the endpoint creation the resumed `_connect`
+      -- installs a fresh protocol and spawns the seven SPA tasks on it for a spa nobody owns any more: they live on
+      tasksAlive := (p.tasksSpawned && !(f.resetDisconnectsSpa && f.disconnectCancelsSpaTasks)) ||
+                    (!p.tasksSpawned && p.endpoint == .pending),
       observersLeft := !(f.resetDisconnectsSpa && f.disconnectUnwatchesAll),
       pumpAlive := f.pumpSurvivesExceptions }
   else if p.proc = "pump-connected" then
